@@ -61,7 +61,7 @@ SIG = {
 }
 ORDER = list(SIG)
 
-RESERVED = {"exp", "ln", "sqrt", "vsum", "vmax", "vmean", "vvar", "rpow", "sz", "ix", "vec", "epsilon", "fst", "snd",
+RESERVED = {"exp", "ln", "sqrt", "vsum", "vmax", "vmean", "vvar", "rpow", "sz", "ix", "vec", "fst", "snd",
             "Some", "None", "true", "false", "if", "then", "else", "let", "in", "match", "with", "end", "fun", "INR", "R",
             "nat", "bool", "option", "negb", "Rmax", "Rabs", "Rpower", "pow"}
 
@@ -83,7 +83,7 @@ def pat(src):
 
 # ---------------------------------------------------------------------------------------------
 # IR
-#   expr  := ('const', Fraction) | ('var', name) | ('val', name)  [value of an option known to be Some]
+#   expr  := ('const', Fraction) | ('mconst', name) [module constant] | ('var', name) | ('val', name)  [value of an option known to be Some]
 #          | ('neg', e) | ('bin', op, a, b) | ('pow', a, b) | ('fn', f, e)
 #          | ('red', 'sum'|'max'|'mean'|'var', e) | ('at', e, label) | ('zeros',) | ('len',)
 #          | ('upd', e, label, s) | ('subat', e, label, s) | ('call', kernel, [args], outkind)
@@ -212,7 +212,7 @@ class Tr:
                     return ("var", n.id), k
                 raise self.err(n, "name %s of kind %s used as a value" % (n.id, k))
             if n.id in self.consts:
-                return ("const", self.consts[n.id]), "sc"
+                return ("mconst", n.id), "sc"
             raise self.err(n, "unknown name " + n.id)
         if isinstance(n, ast.UnaryOp) and isinstance(n.op, ast.USub):
             e, k = self.expr(n.operand)
@@ -564,6 +564,8 @@ class Ev:
             return float(e[1])
         if t in ("var", "val"):
             return env[e[1]]
+        if t == "mconst":
+            return float(self.ir["consts"][e[1]])
         if t == "label":
             return env[e[1]]
         if t == "neg":
@@ -672,12 +674,14 @@ class Pr:
         t = e[0]
         if t == "const":
             return q(e[1])
+        if t == "mconst":
+            return e[1]
         if t == "var":
             name = cname(e[1])
             if self.kenv.get(e[1]) == "V":
                 if ix is None:
                     raise ValueError("vector %s used as scalar" % e[1])
-                return "%s %s" % (name, ix)
+                return "(%s %s)" % (name, ix)
             return name
         if t == "val":
             return cname(e[1]) + "_v"
@@ -704,11 +708,11 @@ class Pr:
         if t == "upd":
             return "(if Nat.eqb %s %s then %s else %s)" % (ix, cname(e[2]), self.at(e[3], None), self.at(e[1], ix))
         if t == "subat":
-            return "(if Nat.eqb %s %s then %s - %s else %s)" % (ix, cname(e[2]), self.at(e[1], ix), self.at(e[3], None), self.at(e[1], ix))
+            return "(if Nat.eqb %s %s then (%s - %s) else %s)" % (ix, cname(e[2]), self.at(e[1], ix), self.at(e[3], None), self.at(e[1], ix))
         if t == "call":
             k = self.ir["kernels"][e[1]]
             if k["ret"][0][1] == "V":
-                return "%s %s" % (self.callterm(e), ix)
+                return "(%s %s)" % (self.callterm(e), ix)
             return self.callterm(e)
         if t == "ife":
             return self.cond(e[1], self.at(e[2], ix), self.at(e[3], ix))
@@ -722,7 +726,7 @@ class Pr:
             return True
         if t == "call":
             return self.ir["kernels"][e[1]]["ret"][0][1] == "V"
-        if t in ("const", "val", "red", "at", "len", "none"):
+        if t in ("const", "mconst", "val", "red", "at", "len", "none"):
             return False
         return any(self.varies(x) for x in e[1:] if isinstance(x, tuple))
 
@@ -1090,9 +1094,8 @@ From SG Require Import Analysis.Vector.
 Import ListNotations.
 Open Scope R_scope.
 
-(* module constant cpu_ops.epsilon *)
-Definition epsilon : R := %s.
-
+(* module constants of cpu_ops.py *)
+%s
 """
 
 
@@ -1100,7 +1103,10 @@ def generate(repo=None):
     ir = translate(repo)
     w = wiring(repo)
     pr = Pr(ir)
-    txt = HEADER % (SRC_REL, WRAP_REL, q(ir["consts"]["epsilon"]))
+    for c in ir["consts"]:
+        if cname(c) != c:
+            raise Untranslatable(SRC_REL, "module constant named " + c)
+    txt = HEADER % (SRC_REL, WRAP_REL, "".join("Definition %s : R := %s.\n" % (c, q(v)) for c, v in ir["consts"].items()))
     for name in ORDER:
         k = ir["kernels"][name]
         t, probes = pr.kernel(k)
